@@ -244,7 +244,7 @@ func main() {
 	}
 	sort.Strings(kf)
 	for _, k := range kf {
-		fmt.Printf("KNOWN-FINDING: property=%s %s (hit by %d runs)\n", *prop, strings.TrimPrefix(k, "known: "), knownHit[k])
+		fmt.Printf("KNOWN-FINDING: %s (hit by %d runs)\n", strings.TrimSpace(strings.TrimPrefix(k, "known:")), knownHit[k])
 	}
 	exit := 0
 	// one report per class, minimised + replayed in a fresh process
